@@ -106,6 +106,8 @@ def check_case(case):
     fields = libx.tx_model_of(tx)
     ids = (tx.GetTxid(), tx.GetHash(), hash(tx)) if immutable else None
     fl = libx.flagset(flags)
+    # the flag set in the container types callers use (the functions' own default is a tuple)
+    fl = [fl, frozenset(fl), tuple(fl), list(fl)][(case['variant'] + case['fb']) % 4]
     init = None
     t0 = time.time()
     try:
